@@ -29,7 +29,8 @@ of another context, and are NOT directive names of the snippet's context.
 -/
 namespace NGF.SnippetLex
 
-inductive Quote | none | dq | sq
+/-- `dqOpen`/`sqOpen`: a quoted word that reached the end of the input without its closing quote -/
+inductive Quote | none | dq | sq | dqOpen | sqOpen
   deriving DecidableEq, Repr
 
 inductive Tok
@@ -54,14 +55,10 @@ inductive Mode
   | gap
   | comment (acc : List Char)
   | bare (acc : List Char) (esc var : Bool)
-  | quoted (q : Quote) (acc : List Char) (esc : Bool)
+  | quoted (dq : Bool) (acc : List Char) (esc : Bool)   -- acc: text after the opening quote
   deriving DecidableEq, Repr
 
-def closes (q : Quote) (c : Char) : Bool :=
-  match q with
-  | .dq => c == '"'
-  | .sq => c == '\''
-  | .none => false
+def quoteChar (dq : Bool) : Char := if dq then '"' else '\''
 
 def step : Mode → Char → Mode × List Tok
   | .gap, c =>
@@ -70,8 +67,8 @@ def step : Mode → Char → Mode × List Tok
     else if c == '{' then (.gap, [.lb])
     else if c == '}' then (.gap, [.rb])
     else if c == '#' then (.comment [c], [])
-    else if c == '"' then (.quoted .dq [c] false, [])
-    else if c == '\'' then (.quoted .sq [c] false, [])
+    else if c == '"' then (.quoted true [] false, [])
+    else if c == '\'' then (.quoted false [] false, [])
     else if c == '\\' then (.bare [c] true false, [])
     else if c == '$' then (.bare [c] false true, [])
     else (.bare [c] false false, [])
@@ -86,18 +83,19 @@ def step : Mode → Char → Mode × List Tok
     else if c == ';' then (.gap, [.word acc.reverse .none, .semi])
     else if c == '{' then (.gap, [.word acc.reverse .none, .lb])
     else (.bare (c :: acc) false false, [])
-  | .quoted q acc esc, c =>
-    if esc then (.quoted q (c :: acc) false, [])
-    else if c == '\\' then (.quoted q (c :: acc) true, [])
-    else if closes q c then (.gap, [.word (c :: acc).reverse q])
-    else (.quoted q (c :: acc) false, [])
+  | .quoted dq acc esc, c =>
+    if esc then (.quoted dq (c :: acc) false, [])
+    else if c == '\\' then (.quoted dq (c :: acc) true, [])
+    else if c == quoteChar dq then
+      (.gap, [.word (quoteChar dq :: (c :: acc).reverse) (if dq then .dq else .sq)])
+    else (.quoted dq (c :: acc) false, [])
 
 /-- tokens still owed at end of input -/
 def flush : Mode → List Tok
   | .gap => []
   | .comment acc => [.comment acc.reverse]
   | .bare acc _ _ => [.word acc.reverse .none]
-  | .quoted q acc _ => [.word acc.reverse q]
+  | .quoted dq acc _ => [.word (quoteChar dq :: acc.reverse) (if dq then .dqOpen else .sqOpen)]
 
 def run : Mode → List Char → List Tok
   | m, [] => flush m
@@ -116,14 +114,12 @@ def unescape : List Char → List Char
   | c :: cs => c :: unescape cs
   | [] => []
 
-/-- the word NGINX stores in `cf->args` -/
+/-- the word NGINX stores in `cf->args`: quotes stripped, escapes processed -/
 def wordValue (raw : List Char) (q : Quote) : List Char :=
   match q with
   | .none => unescape raw
-  | _ =>
-    let body := raw.drop 1
-    let body := if raw.length ≥ 2 && closes q (raw.getLast?.getD ' ') then body.dropLast else body
-    unescape body
+  | .dq | .sq => unescape (raw.drop 1).dropLast
+  | .dqOpen | .sqOpen => unescape (raw.drop 1)
 
 /-- first words of the statements at nesting depth 0 (`atStart`: no word of the statement seen yet) -/
 def namesFrom : Nat → Bool → List Tok → List (List Char)
